@@ -1,6 +1,45 @@
 (** * Sorting, per backend cut-off and windowing of the query engine (C06)
 
-    STATUS: work in progress (header is rewritten at the end). *)
+    STATUS: every statement of this file is proved; there are no [_partial]
+    theorems and nothing is left open.  All theorems are by induction over
+    arbitrary lists; [Print Assumptions] at the end of the file.
+
+    A. order      [str_ltb_irrefl/trans/total/asym]; [cmp_key_refl/opp/eq/lt_trans];
+                  [keys_leb_refl], [keys_leb_total] (unconditional),
+                  [keys_leb_trans] and [keys_leb_antisym] under [same_shape]
+                  (same constructor at every position; mixed constructors
+                  compare [Eq], which is NOT transitive: KNum 1, KStr x, KNum 0).
+    B. isort      [isort_perm], [isort_sorted], [isort_stable_on_sorted]
+                  (needs no assumption), [isort_perm_eqv] (the sorted result
+                  depends on the input order only up to ties),
+                  [isort_sorted_on] (order transitive only on a decidable class).
+    C. cut-off    [topk_cut]: position by position equivalence ([eqv_list],
+                  ties = [leb a b && leb b a]) of the first [k] rows of the
+                  sorted concatenation of the cut lists and of the complete
+                  lists; [topk_cut_incl] (nothing invented); [topk_cut_keys]
+                  (equality of every observation that is constant on ties);
+                  [topk_cut_on] (relativised version used for the engine);
+                  [topk_cut_needs_sorted] (the hypothesis is necessary).
+                  Formulation: with ties the ROWS of both sides can differ
+                  (two rows with equal keys from different backends), the KEYS
+                  cannot, so the claim is [eqv_list] + key equality.
+    D. engine     [hits_of_wf]: all rows of a request have one key shape (so the
+                  shape hypothesis of the task is discharged, not assumed);
+                  [cut_window_eqv], [cut_window_keys], [cut_window_unsorted_exact]
+                  on arbitrary per backend lists;
+                  [C06_window_default_order(_eqv)]: with [backend_limit rq = Some k],
+                  [0 <= rq_offset rq] (the parser rejects negative offsets;
+                  [cut_needs_nonneg_offset] shows it is necessary) and every
+                  backend list sorted ([backends_sorted]), the key sequences of
+                  [data_result] and [data_result_spec] are EQUAL and the lengths
+                  are equal -- without the proviso "total >= offset": when the
+                  implementation takes the early exit the window of the
+                  specification is empty too ([impl_total_small]);
+                  [C06_window_unsorted_exact]: without Sort header even the rows are equal;
+                  [C06_window_no_cut], [C06_total], [C06_total_le],
+                  [C06_result_sorted], [C06_result_sublist].
+    E. window     [window_length], [window_segment] (contiguous segment),
+                  [window_sublist], [window_NoDup], [window_sorted]. *)
 From LMD Require Import QE.Engine.
 From Coq Require Import Sorting.Sorted Permutation.
 Local Open Scope nat_scope.
@@ -322,6 +361,23 @@ Proof.
   rewrite app_length, IH. reflexivity.
 Qed.
 
+Lemma NoDup_app_parts {A} (l1 l2 : list A) : NoDup (l1 ++ l2) -> NoDup l1 /\ NoDup l2.
+Proof.
+  induction l1 as [|a l1 IH]; cbn [app]; intros H.
+  - split; [constructor|exact H].
+  - inversion H as [|x l Hn Hd]; subst. destruct (IH Hd) as [H1 H2].
+    split; [|exact H2]. constructor; [|exact H1].
+    intros Hin. apply Hn, in_or_app. left; exact Hin.
+Qed.
+
+Lemma perm4 {A} (a b c d : list A) :
+  Permutation ((a ++ b) ++ (c ++ d)) ((b ++ c) ++ (a ++ d)).
+Proof.
+  rewrite <- !app_assoc. rewrite (app_assoc b c (a ++ d)), (app_assoc b c d).
+  rewrite (app_assoc a (b ++ c) d), (app_assoc (b ++ c) a d).
+  apply Permutation_app_tail, Permutation_app_comm.
+Qed.
+
 Lemma StronglySorted_app_inv {A} (R : A -> A -> Prop) l1 l2 :
   StronglySorted R (l1 ++ l2) ->
   StronglySorted R l1 /\ StronglySorted R l2 /\ (forall x y, In x l1 -> In y l2 -> R x y).
@@ -412,7 +468,7 @@ Section SortTotal.
   Hypothesis leb_total : forall a b, leb a b = true \/ leb b a = true.
   Hypothesis leb_trans : forall a b c, leb a b = true -> leb b c = true -> leb a c = true.
 
-  Definition le (a b : A) : Prop := leb a b = true.
+  Definition lebP (a b : A) : Prop := leb a b = true.
   Definition eqvb (a b : A) : bool := leb a b && leb b a.
   Definition eqv (a b : A) : Prop := eqvb a b = true.
   (** position by position equivalence of two lists (same length) *)
@@ -465,7 +521,7 @@ Section SortTotal.
   Proof. apply Forall2_same_length. Qed.
 
   (** **** sortedness *)
-  Lemma insert_sorted x l : StronglySorted le l -> StronglySorted le (insert leb x l).
+  Lemma insert_sorted x l : StronglySorted lebP l -> StronglySorted lebP (insert leb x l).
   Proof.
     induction l as [|y l IH]; intros Hs; cbn [insert].
     - constructor; constructor.
@@ -481,25 +537,25 @@ Section SortTotal.
         * apply Hf; exact Hz.
   Qed.
 
-  Theorem isort_sorted l : StronglySorted le (isort leb l).
+  Theorem isort_sorted l : StronglySorted lebP (isort leb l).
   Proof.
     induction l as [|x l IH]; [constructor|]. rewrite isort_cons. apply insert_sorted, IH.
   Qed.
 
   Lemma fold_insert_sorted s rest :
-    StronglySorted le s -> StronglySorted le (fold_right (insert leb) s rest).
+    StronglySorted lebP s -> StronglySorted lebP (fold_right (insert leb) s rest).
   Proof.
     intros Hs. induction rest as [|r rest IH]; cbn [fold_right]; [exact Hs|].
     apply insert_sorted, IH.
   Qed.
 
   (** sorting a sorted list changes nothing (so the sort is stable on sorted input) *)
-  Theorem isort_stable_on_sorted l : StronglySorted le l -> isort leb l = l.
+  Theorem isort_stable_on_sorted l : StronglySorted lebP l -> isort leb l = l.
   Proof.
     induction l as [|x l IH]; intros Hs; [reflexivity|].
     apply StronglySorted_inv in Hs as [Hs Hf].
     rewrite isort_cons, (IH Hs). destruct l as [|y l]; [reflexivity|].
-    cbn [insert]. apply Forall_inv in Hf. unfold le in Hf. rewrite Hf. reflexivity.
+    cbn [insert]. apply Forall_inv in Hf. unfold lebP in Hf. rewrite Hf. reflexivity.
   Qed.
 
   (** **** the sorted result depends on the input order only up to [eqv] *)
@@ -550,7 +606,7 @@ Section SortTotal.
 
   (** two sorted permutations of each other agree position by position up to [eqv] *)
   Corollary sorted_perm_eqv s s' :
-    StronglySorted le s -> StronglySorted le s' -> Permutation s s' -> eqv_list s s'.
+    StronglySorted lebP s -> StronglySorted lebP s' -> Permutation s s' -> eqv_list s s'.
   Proof.
     intros Hs Hs' Hp. rewrite <- (isort_stable_on_sorted s Hs), <- (isort_stable_on_sorted s' Hs').
     apply isort_perm_eqv, Hp.
@@ -560,7 +616,7 @@ Section SortTotal.
 
   (** in a sorted list the elements [<= x] form a prefix *)
   Lemma sorted_firstn_le x s k :
-    StronglySorted le s -> k <= length (filter (fun y => leb y x) s) ->
+    StronglySorted lebP s -> k <= length (filter (fun y => leb y x) s) ->
     Forall (fun y => leb y x = true) (firstn k s).
   Proof.
     intros Hs. revert k. induction Hs as [|y s Hs IH Hf]; intros k Hk.
@@ -596,7 +652,7 @@ Section SortTotal.
   (** an element with at least [k] elements [<=] it in the sorted list [s] does
       not change the first [k] positions (up to [eqv]) *)
   Lemma insert_drop x s k :
-    StronglySorted le s -> k <= length (filter (fun y => leb y x) s) ->
+    StronglySorted lebP s -> k <= length (filter (fun y => leb y x) s) ->
     eqv_list (firstn k (insert leb x s)) (firstn k s).
   Proof.
     intros Hs. revert k. induction Hs as [|y s Hs IH Hf]; intros k Hk.
@@ -615,7 +671,7 @@ Section SortTotal.
 
   (** inserting elements that each have [k] smaller-or-equal elements in [s0] *)
   Lemma fold_insert_drop k s0 rest :
-    StronglySorted le s0 ->
+    StronglySorted lebP s0 ->
     (forall r, In r rest -> k <= length (filter (fun y => leb y r) s0)) ->
     eqv_list (firstn k (fold_right (insert leb) s0 rest)) (firstn k s0).
   Proof.
@@ -632,10 +688,10 @@ Section SortTotal.
     Permutation (concat bs) (concat (map (skipn k) bs) ++ concat (map (firstn k) bs)).
   Proof.
     induction bs as [|b bs IH]; cbn [concat map]; [reflexivity|].
-    rewrite IH. rewrite <- (firstn_skipn k b) at 1.
-    rewrite <- !app_assoc. rewrite (Permutation_app_comm (firstn k b)).
-    rewrite <- !app_assoc. apply Permutation_app_head.
-    rewrite !app_assoc. apply Permutation_app_tail. apply Permutation_app_comm.
+    transitivity ((firstn k b ++ skipn k b) ++
+                  (concat (map (skipn k) bs) ++ concat (map (firstn k) bs))).
+    - rewrite firstn_skipn. apply Permutation_app_head, IH.
+    - apply perm4.
   Qed.
 
   Lemma count_concat_ge (p : A -> bool) (f : list A -> list A) b bs :
@@ -648,7 +704,7 @@ Section SortTotal.
 
   (** an element behind position [k] of a sorted list has [k] elements [<=] it in front *)
   Lemma skipn_has_k_smaller k b r :
-    StronglySorted le b -> In r (skipn k b) ->
+    StronglySorted lebP b -> In r (skipn k b) ->
     length (filter (fun y => leb y r) (firstn k b)) = k.
   Proof.
     intros Hs Hr.
@@ -665,7 +721,7 @@ Section SortTotal.
       elements of every list; the result is the same position by position up
       to ties of the order. *)
   Theorem topk_cut (k : nat) (bs : list (list A)) :
-    Forall (StronglySorted le) bs ->
+    Forall (StronglySorted lebP) bs ->
     eqv_list (firstn k (isort leb (concat (map (firstn k) bs))))
              (firstn k (isort leb (concat bs))).
   Proof.
@@ -698,7 +754,7 @@ Section SortTotal.
   (** equality of every observation that does not distinguish tied elements *)
   Corollary topk_cut_keys {K} (key : A -> K) (k : nat) (bs : list (list A)) :
     (forall a b, eqv a b -> key a = key b) ->
-    Forall (StronglySorted le) bs ->
+    Forall (StronglySorted lebP) bs ->
     map key (firstn k (isort leb (concat (map (firstn k) bs)))) =
     map key (firstn k (isort leb (concat bs))).
   Proof.
@@ -707,3 +763,644 @@ Section SortTotal.
     rewrite (Hkey x y Hxy), IH. reflexivity.
   Qed.
 End SortTotal.
+
+(** *** [leb] transitive only on a decidable class of elements (all we sort) *)
+Lemma StronglySorted_impl_in {A} (P : A -> Prop) (R R' : A -> A -> Prop) l :
+  (forall a b, P a -> P b -> R a b -> R' a b) ->
+  Forall P l -> StronglySorted R l -> StronglySorted R' l.
+Proof.
+  intros HR Hp Hs. induction Hs as [|x l Hs IH Hf]; constructor.
+  - apply IH. exact (Forall_inv_tail Hp).
+  - pose proof (Forall_inv Hp) as Hx. apply Forall_inv_tail in Hp.
+    rewrite Forall_forall in *. intros y Hy. apply HR; [exact Hx|apply Hp; exact Hy|apply Hf; exact Hy].
+Qed.
+
+Lemma Forall_concat_all {A} (P : A -> Prop) (ls : list (list A)) :
+  Forall (Forall P) ls -> Forall P (concat ls).
+Proof.
+  induction 1 as [|l ls Hl _ IH]; cbn [concat]; [constructor|]. apply Forall_app. split; assumption.
+Qed.
+
+Section SortOn.
+  Context {A : Type} (leb : A -> A -> bool) (pb : A -> bool).
+  Hypothesis leb_total : forall a b, leb a b = true \/ leb b a = true.
+  Hypothesis leb_trans_on : forall a b c, pb a = true -> pb b = true -> pb c = true ->
+    leb a b = true -> leb b c = true -> leb a c = true.
+
+  (** the same order on the class, everything else is put behind it *)
+  Definition rleb (a b : A) : bool :=
+    match pb a, pb b with
+    | true, true => leb a b
+    | true, false => true
+    | false, true => false
+    | false, false => true
+    end.
+
+  Definition allp (l : list A) : Prop := Forall (fun a => pb a = true) l.
+
+  Lemma rleb_total a b : rleb a b = true \/ rleb b a = true.
+  Proof. unfold rleb. destruct (pb a), (pb b); auto. Qed.
+
+  Lemma rleb_trans a b c : rleb a b = true -> rleb b c = true -> rleb a c = true.
+  Proof.
+    unfold rleb. destruct (pb a) eqn:Ea, (pb b) eqn:Eb, (pb c) eqn:Ec; try congruence.
+    apply leb_trans_on; assumption.
+  Qed.
+
+  Lemma rleb_on a b : pb a = true -> pb b = true -> rleb a b = leb a b.
+  Proof. unfold rleb. intros -> ->. reflexivity. Qed.
+
+  Lemma isort_rleb l : allp l -> isort rleb l = isort leb l.
+  Proof.
+    intros H. apply isort_ext_in. intros x y Hx Hy.
+    unfold allp in H. rewrite Forall_forall in H. apply rleb_on; auto.
+  Qed.
+
+  Lemma allp_isort l : allp l -> allp (isort leb l).
+  Proof.
+    unfold allp. rewrite !Forall_forall. intros H x Hx. apply H. apply (isort_In leb). exact Hx.
+  Qed.
+
+  Theorem isort_sorted_on l : allp l -> StronglySorted (lebP leb) (isort leb l).
+  Proof.
+    intros Hp. apply StronglySorted_impl_in with (P := fun a => pb a = true) (R := lebP rleb).
+    - intros a b Ha Hb H. unfold lebP in *. rewrite rleb_on in H; assumption.
+    - apply allp_isort, Hp.
+    - rewrite <- (isort_rleb l Hp). apply isort_sorted; [apply rleb_total|apply rleb_trans].
+  Qed.
+
+  Lemma sorted_rleb l : allp l -> StronglySorted (lebP leb) l -> StronglySorted (lebP rleb) l.
+  Proof.
+    intros Hp. apply StronglySorted_impl_in with (P := fun a => pb a = true); [|exact Hp].
+    intros a b Ha Hb H. unfold lebP in *. rewrite rleb_on; assumption.
+  Qed.
+
+  Theorem topk_cut_on (k : nat) (bs : list (list A)) :
+    Forall allp bs -> Forall (StronglySorted (lebP leb)) bs ->
+    eqv_list leb (firstn k (isort leb (concat (map (firstn k) bs))))
+                 (firstn k (isort leb (concat bs))).
+  Proof.
+    intros Hp Hs.
+    assert (allp (concat bs)) as Hc by (apply Forall_concat_all; exact Hp).
+    assert (allp (concat (map (firstn k) bs))) as Hc'.
+    { unfold allp in *. rewrite Forall_forall in *. intros x Hx. apply Hc.
+      eapply concat_firstn_incl; exact Hx. }
+    rewrite <- (isort_rleb _ Hc), <- (isort_rleb _ Hc').
+    apply Forall2_impl_in with (P := fun a => pb a = true) (R := eqv rleb).
+    - intros a b Ha Hb H. unfold eqv, eqvb in *. rewrite !rleb_on in H by assumption. exact H.
+    - rewrite Forall_forall. intros x Hx. apply In_firstn in Hx. apply isort_In in Hx.
+      unfold allp in Hc'. rewrite Forall_forall in Hc'. apply Hc'; exact Hx.
+    - rewrite Forall_forall. intros x Hx. apply In_firstn in Hx. apply isort_In in Hx.
+      unfold allp in Hc. rewrite Forall_forall in Hc. apply Hc; exact Hx.
+    - apply topk_cut; [apply rleb_total|apply rleb_trans|].
+      rewrite Forall_forall in *. intros b Hb. apply sorted_rleb; [apply Hp|apply Hs]; exact Hb.
+  Qed.
+End SortOn.
+
+(** the sortedness of the lists is necessary *)
+Example topk_cut_needs_sorted :
+  exists (k : nat) (bs : list (list nat)),
+    ~ eqv_list Nat.leb (firstn k (isort Nat.leb (concat (map (firstn k) bs))))
+                       (firstn k (isort Nat.leb (concat bs))).
+Proof.
+  exists 1, [[3; 1]]. vm_compute. intros H.
+  inversion H as [|x y l l' Hxy _]; subst. discriminate Hxy.
+Qed.
+
+(** without sorting the cut is exact *)
+Lemma firstn_concat_cut {A} (k : nat) (bs : list (list A)) :
+  forall j, j <= k -> firstn j (concat (map (firstn k) bs)) = firstn j (concat bs).
+Proof.
+  induction bs as [|b bs IH]; intros j Hj; cbn [map concat]; [reflexivity|].
+  rewrite !firstn_app, firstn_firstn, firstn_length.
+  replace (Nat.min j k) with j by lia.
+  destruct (Nat.le_gt_cases (length b) k) as [Hb|Hb].
+  - replace (Nat.min k (length b)) with (length b) by lia. f_equal. apply IH. lia.
+  - replace (j - Nat.min k (length b)) with 0 by lia. replace (j - length b) with 0 by lia.
+    reflexivity.
+Qed.
+
+Lemma firstn_skipn_firstn {A} a b k (l : list A) :
+  a + b <= k -> firstn a (skipn b (firstn k l)) = firstn a (skipn b l).
+Proof.
+  intros H. rewrite skipn_firstn_comm, firstn_firstn. f_equal. lia.
+Qed.
+
+(** ** E. The window *)
+Theorem window_length {A} (rq : request) (l : list A) :
+  length (window rq l) =
+  match rq_limit rq with
+  | Some lim => Nat.min (Z.to_nat lim) (length l - Z.to_nat (rq_offset rq))
+  | None => length l - Z.to_nat (rq_offset rq)
+  end.
+Proof.
+  unfold window. destruct (rq_limit rq) as [lim|].
+  - rewrite firstn_length, skipn_length. reflexivity.
+  - apply skipn_length.
+Qed.
+
+(** the window is a contiguous segment of the list *)
+Theorem window_segment {A} (rq : request) (l : list A) :
+  exists pre post, l = pre ++ window rq l ++ post /\
+                   length pre = Nat.min (Z.to_nat (rq_offset rq)) (length l).
+Proof.
+  unfold window. exists (firstn (Z.to_nat (rq_offset rq)) l).
+  destruct (rq_limit rq) as [lim|].
+  - exists (skipn (Z.to_nat lim) (skipn (Z.to_nat (rq_offset rq)) l)).
+    rewrite !firstn_skipn. split; [reflexivity|apply firstn_length].
+  - exists []. rewrite app_nil_r, firstn_skipn. split; [reflexivity|apply firstn_length].
+Qed.
+
+Theorem window_sublist {A} (rq : request) (l : list A) x : In x (window rq l) -> In x l.
+Proof.
+  unfold window. destruct (rq_limit rq) as [lim|]; intros H.
+  - apply In_firstn in H. apply In_skipn in H. exact H.
+  - apply In_skipn in H. exact H.
+Qed.
+
+Theorem window_NoDup {A} (rq : request) (l : list A) : NoDup l -> NoDup (window rq l).
+Proof.
+  intros H. destruct (window_segment rq l) as [pre [post [E _]]]. rewrite E in H.
+  apply NoDup_app_parts in H as [_ H]. apply NoDup_app_parts in H as [H _]. exact H.
+Qed.
+
+Lemma window_sorted {A} (R : A -> A -> Prop) (rq : request) (l : list A) :
+  StronglySorted R l -> StronglySorted R (window rq l).
+Proof.
+  intros H. unfold window. destruct (rq_limit rq) as [lim|].
+  - apply StronglySorted_firstn, StronglySorted_skipn, H.
+  - apply StronglySorted_skipn, H.
+Qed.
+
+Lemma window_nil_short {A} (rq : request) (l : list A) :
+  length l <= Z.to_nat (rq_offset rq) -> window rq l = [].
+Proof.
+  intros H. unfold window. rewrite (skipn_all2 _ H). destruct (rq_limit rq); [apply firstn_nil|reflexivity].
+Qed.
+
+Lemma window_nil_limit {A} (rq : request) (l : list A) lim :
+  rq_limit rq = Some lim -> (lim <= 0)%Z -> window rq l = [].
+Proof.
+  intros E H. unfold window. rewrite E. replace (Z.to_nat lim) with 0 by lia. reflexivity.
+Qed.
+
+Lemma window_Forall2_of_firstn {A} (R : A -> A -> Prop) (rq : request) lim k s s' :
+  rq_limit rq = Some lim -> Z.to_nat lim + Z.to_nat (rq_offset rq) <= k ->
+  Forall2 R (firstn k s) (firstn k s') -> Forall2 R (window rq s) (window rq s').
+Proof.
+  intros E Hk H. unfold window. rewrite E.
+  rewrite <- (firstn_skipn_firstn _ _ k s Hk), <- (firstn_skipn_firstn _ _ k s' Hk).
+  apply Forall2_firstn, Forall2_skipn, H.
+Qed.
+
+Lemma window_cut_exact {A} (rq : request) lim k (per : list (list A)) :
+  rq_limit rq = Some lim -> Z.to_nat lim + Z.to_nat (rq_offset rq) <= k ->
+  window rq (concat (map (firstn k) per)) = window rq (concat per).
+Proof.
+  intros E Hk. unfold window. rewrite E.
+  rewrite <- (firstn_skipn_firstn _ _ k (concat (map (firstn k) per)) Hk).
+  rewrite <- (firstn_skipn_firstn _ _ k (concat per) Hk).
+  rewrite (firstn_concat_cut k per k (Nat.le_refl k)). reflexivity.
+Qed.
+
+(** ** D. The query engine: [data_result] against [data_result_spec] *)
+
+(** the order [sort_hits] sorts by *)
+Definition hleb (rq : request) (a b : hit) : bool :=
+  keys_leb (dirs_of rq) (h_keys a) (h_keys b).
+
+(** the shape of the keys of one request: fixed by the column types of the Sort headers *)
+Definition tag_of_dtype (t : dtype) : nat :=
+  match t with TInt | TInt64 | TFloat => 0 | TCustVar => 2 | _ => 1 end.
+Definition shape_of (rq : request) : list nat :=
+  map (fun k => tag_of_dtype (c_type (sk_col k))) (rq_sort rq).
+Definition hit_wf (rq : request) (h : hit) : Prop := map ktag (h_keys h) = shape_of rq.
+Definition hit_wfb (rq : request) (h : hit) : bool :=
+  if list_eq_dec Nat.eq_dec (map ktag (h_keys h)) (shape_of rq) then true else false.
+
+Lemma hit_wfb_iff rq h : hit_wfb rq h = true <-> hit_wf rq h.
+Proof.
+  unfold hit_wfb, hit_wf. destruct (list_eq_dec Nat.eq_dec _ _) as [e|n]; split; congruence.
+Qed.
+
+Lemma hit_wf_allp rq l : Forall (hit_wf rq) l -> allp (hit_wfb rq) l.
+Proof. unfold allp. apply Forall_impl. intros h. apply hit_wfb_iff. Qed.
+
+Lemma sort_key_tag schema rq bk td r k :
+  ktag (sort_key schema rq bk td r k) = tag_of_dtype (c_type (sk_col k)).
+Proof. unfold sort_key. destruct (c_type (sk_col k)); reflexivity. Qed.
+
+(** every row the engine produces for one request has the shape of the request *)
+Lemma hits_of_wf schema cfg rq bk : Forall (hit_wf rq) (hits_of schema cfg rq bk).
+Proof.
+  unfold hits_of. destruct (table_data bk (rq_table rq)) as [td|]; [|constructor].
+  rewrite Forall_forall. intros h Hh. apply in_map_iff in Hh as [r [<- _]].
+  unfold hit_wf, shape_of. cbn [h_keys]. rewrite map_map. apply map_ext.
+  intros k. apply sort_key_tag.
+Qed.
+
+Lemma hit_wf_same_shape rq a b : hit_wf rq a -> hit_wf rq b -> same_shape (h_keys a) (h_keys b).
+Proof. unfold hit_wf, same_shape. congruence. Qed.
+
+Lemma hit_wf_length rq a : hit_wf rq a -> length (h_keys a) = length (dirs_of rq).
+Proof.
+  unfold hit_wf, shape_of, dirs_of. intros H. apply (f_equal (@length nat)) in H.
+  rewrite !map_length in *. exact H.
+Qed.
+
+Lemma hleb_refl rq a : hleb rq a a = true.
+Proof. apply keys_leb_refl. Qed.
+
+Lemma hleb_total rq a b : hleb rq a b = true \/ hleb rq b a = true.
+Proof. apply keys_leb_total. Qed.
+
+Lemma hleb_trans_on rq a b c :
+  hit_wfb rq a = true -> hit_wfb rq b = true -> hit_wfb rq c = true ->
+  hleb rq a b = true -> hleb rq b c = true -> hleb rq a c = true.
+Proof.
+  intros Ha Hb Hc. apply hit_wfb_iff in Ha, Hb, Hc. unfold hleb.
+  apply keys_leb_trans; eapply hit_wf_same_shape; eassumption.
+Qed.
+
+(** tied rows of one request have equal keys *)
+Lemma hleb_eqv_keys rq a b :
+  hit_wf rq a -> hit_wf rq b -> eqv (hleb rq) a b -> h_keys a = h_keys b.
+Proof.
+  intros Ha Hb H. apply eqv_iff in H as [H1 H2].
+  apply (keys_leb_antisym (dirs_of rq)); [eapply hit_wf_same_shape; eassumption| |exact H1|exact H2].
+  apply (hit_wf_length rq a Ha).
+Qed.
+
+Lemma eqv_list_keys rq l l' :
+  Forall (hit_wf rq) l -> Forall (hit_wf rq) l' -> eqv_list (hleb rq) l l' ->
+  map h_keys l = map h_keys l'.
+Proof.
+  intros Hl Hl' H. induction H as [|x y l l' Hxy _ IH]; cbn [map]; [reflexivity|].
+  rewrite (hleb_eqv_keys rq x y (Forall_inv Hl) (Forall_inv Hl') Hxy).
+  rewrite (IH (Forall_inv_tail Hl) (Forall_inv_tail Hl')). reflexivity.
+Qed.
+
+(** *** [sort_hits] *)
+Lemma sort_hits_nil rq l : rq_sort rq = [] -> sort_hits rq l = l.
+Proof. unfold sort_hits. intros ->. reflexivity. Qed.
+
+Lemma sort_hits_cons rq l : rq_sort rq <> [] -> sort_hits rq l = isort (hleb rq) l.
+Proof. unfold sort_hits. destruct (rq_sort rq); [congruence|reflexivity]. Qed.
+
+Lemma sort_hits_perm rq l : Permutation (sort_hits rq l) l.
+Proof. unfold sort_hits. destruct (rq_sort rq); [reflexivity|apply isort_perm]. Qed.
+
+Lemma sort_hits_length rq l : length (sort_hits rq l) = length l.
+Proof. apply Permutation_length, sort_hits_perm. Qed.
+
+Lemma sort_dec rq : rq_sort rq = [] \/ rq_sort rq <> [].
+Proof. destruct (rq_sort rq); [left; reflexivity|right; discriminate]. Qed.
+
+Theorem sort_hits_sorted rq l :
+  Forall (hit_wf rq) l -> StronglySorted (lebP (hleb rq)) (sort_hits rq l) \/ rq_sort rq = [].
+Proof.
+  intros Hl. destruct (sort_dec rq) as [E|E]; [right; exact E|left].
+  rewrite (sort_hits_cons rq l E).
+  apply isort_sorted_on with (pb := hit_wfb rq);
+    [apply hleb_total|apply hleb_trans_on|apply hit_wf_allp; exact Hl].
+Qed.
+
+(** *** [backend_limit] *)
+Lemma backend_limit_some rq k :
+  backend_limit rq = Some k ->
+  exists l, rq_limit rq = Some l /\ default_sort_order rq = true /\
+            (0 < l + rq_offset rq)%Z /\ k = Z.to_nat (l + rq_offset rq).
+Proof.
+  unfold backend_limit. destruct (rq_limit rq) as [l|]; [|discriminate].
+  destruct (default_sort_order rq); [|discriminate]. cbv zeta.
+  destruct (Z.leb_spec (l + rq_offset rq) 0) as [H|H]; [discriminate|].
+  intros [= <-]. exists l. repeat split; auto.
+Qed.
+
+Lemma cut_incl {A} lim (per : list (list A)) x :
+  In x (concat (map (cut lim) per)) -> In x (concat per).
+Proof.
+  destruct lim as [k|].
+  - change (map (cut (Some k)) per) with (map (firstn k) per). apply concat_firstn_incl.
+  - change (map (cut None) per) with (map (fun l : list A => l) per).
+    rewrite map_id. exact (fun H => H).
+Qed.
+
+(** *** the cut-off on an arbitrary family of per backend lists
+
+    [per]: one list per backend, each in the request's order and with keys of
+    the request's shape.  The window of the merged, cut lists equals the
+    window of the merged complete lists position by position up to ties. *)
+Theorem cut_window_eqv rq k (per : list (list hit)) :
+  backend_limit rq = Some k ->
+  (0 <= rq_offset rq)%Z ->
+  Forall (Forall (hit_wf rq)) per ->
+  Forall (StronglySorted (lebP (hleb rq))) per ->
+  eqv_list (hleb rq) (window rq (sort_hits rq (concat (map (cut (Some k)) per))))
+                     (window rq (sort_hits rq (concat per))).
+Proof.
+  intros Hk Hoff Hwf Hs.
+  destruct (backend_limit_some rq k Hk) as [l [Hl [_ [Hpos Hkk]]]].
+  destruct (Z.le_gt_cases l 0) as [Hl0|Hl0].
+  - rewrite !(window_nil_limit rq _ l Hl Hl0). constructor.
+  - assert (Z.to_nat l + Z.to_nat (rq_offset rq) <= k) as Hle by lia.
+    change (map (cut (Some k)) per) with (map (firstn k) per).
+    destruct (sort_dec rq) as [E|E].
+    + rewrite !(sort_hits_nil rq _ E). rewrite (window_cut_exact rq l k per Hl Hle).
+      apply Forall2_refl_on. intros x. apply eqv_refl. apply hleb_total.
+    + rewrite !(sort_hits_cons rq _ E).
+      apply (window_Forall2_of_firstn _ rq l k _ _ Hl Hle).
+      apply topk_cut_on with (pb := hit_wfb rq).
+      * apply hleb_total.
+      * apply hleb_trans_on.
+      * revert Hwf. apply Forall_impl. intros b. apply hit_wf_allp.
+      * exact Hs.
+Qed.
+
+(** the same as an equation between the key sequences *)
+Corollary cut_window_keys rq k (per : list (list hit)) :
+  backend_limit rq = Some k ->
+  (0 <= rq_offset rq)%Z ->
+  Forall (Forall (hit_wf rq)) per ->
+  Forall (StronglySorted (lebP (hleb rq))) per ->
+  map h_keys (window rq (sort_hits rq (concat (map (cut (Some k)) per)))) =
+  map h_keys (window rq (sort_hits rq (concat per))).
+Proof.
+  intros Hk Hoff Hwf Hs.
+  assert (Forall (hit_wf rq) (concat per)) as Hall by (apply Forall_concat_all; exact Hwf).
+  apply (eqv_list_keys rq); [| |apply (cut_window_eqv rq k per Hk Hoff Hwf Hs)].
+  - rewrite Forall_forall in *. intros x Hx. apply Hall.
+    apply window_sublist in Hx. apply (Permutation_in _ (sort_hits_perm rq _)) in Hx.
+    apply (cut_incl (Some k)) in Hx. exact Hx.
+  - rewrite Forall_forall in *. intros x Hx. apply Hall.
+    apply window_sublist in Hx. apply (Permutation_in _ (sort_hits_perm rq _)) in Hx. exact Hx.
+Qed.
+
+(** without Sort header the cut is exact (complete rows, not only keys) *)
+Theorem cut_window_unsorted_exact rq k (per : list (list hit)) :
+  backend_limit rq = Some k -> (0 <= rq_offset rq)%Z -> rq_sort rq = [] ->
+  window rq (sort_hits rq (concat (map (cut (Some k)) per))) =
+  window rq (sort_hits rq (concat per)).
+Proof.
+  intros Hk Hoff E. rewrite !(sort_hits_nil rq _ E).
+  destruct (backend_limit_some rq k Hk) as [l [Hl [_ [Hpos Hkk]]]].
+  destruct (Z.le_gt_cases l 0) as [Hl0|Hl0].
+  - rewrite !(window_nil_limit rq _ l Hl Hl0). reflexivity.
+  - change (map (cut (Some k)) per) with (map (firstn k) per).
+    apply (window_cut_exact rq l k per Hl). lia.
+Qed.
+
+(** a negative offset (rejected by the parser) would break the cut-off:
+    [backend_limit] adds it to the limit, [window] ignores it *)
+Example cut_needs_nonneg_offset :
+  exists rq k (per : list (list hit)),
+    backend_limit rq = Some k /\ rq_sort rq = [] /\
+    window rq (sort_hits rq (concat (map (cut (Some k)) per))) <>
+    window rq (sort_hits rq (concat per)).
+Proof.
+  exists (mkReq (mkTable [] [] [] [] false false [] []) [] [] [] [] (Some 2%Z) (-1)%Z []
+                FmtJSON false false false [] 0).
+  exists 1, [[mkHit [KNum 0%Z] []; mkHit [KNum 1%Z] []]].
+  split; [reflexivity|]. split; [reflexivity|]. vm_compute. discriminate.
+Qed.
+
+(** *** the reported total *)
+Definition bks_of (ds : dataset) (rq : request) : list backend :=
+  filter (contributes rq) (selected_backends ds rq).
+Definition per_of schema cfg ds rq : list (list hit) :=
+  map (hits_of schema cfg rq) (bks_of ds rq).
+Definition impl_total (rq : request) (per : list (list hit)) : nat :=
+  fold_right Nat.add 0 (map (fun h => backend_total rq (backend_limit rq) (length h)) per).
+
+Lemma data_result_unfold schema cfg ds rq :
+  data_result schema cfg ds rq =
+  if Z.ltb (Z.of_nat (impl_total rq (per_of schema cfg ds rq))) (rq_offset rq)
+  then ([], impl_total rq (per_of schema cfg ds rq))
+  else (window rq (sort_hits rq (concat (map (cut (backend_limit rq)) (per_of schema cfg ds rq)))),
+        impl_total rq (per_of schema cfg ds rq)).
+Proof. reflexivity. Qed.
+
+Lemma data_result_spec_unfold schema cfg ds rq :
+  data_result_spec schema cfg ds rq =
+  (window rq (sort_hits rq (concat (per_of schema cfg ds rq))),
+   length (concat (per_of schema cfg ds rq))).
+Proof. reflexivity. Qed.
+
+Lemma sum_min_small (k : nat) (ns : list nat) :
+  fold_right Nat.add 0 (map (fun n => Nat.min n (S k)) ns) <= k ->
+  fold_right Nat.add 0 (map (fun n => Nat.min n (S k)) ns) = fold_right Nat.add 0 ns.
+Proof.
+  induction ns as [|n ns IH]; cbn [map fold_right]; [reflexivity|].
+  intros H. rewrite IH by lia. lia.
+Qed.
+
+Lemma impl_total_full rq (per : list (list hit)) :
+  backend_limit rq = None \/ rq_format rq = FmtWrapped ->
+  impl_total rq per = length (concat per).
+Proof.
+  intros H. unfold impl_total. rewrite length_concat_sum. f_equal. apply map_ext. intros h.
+  unfold backend_total. destruct H as [-> | ->]; [reflexivity|].
+  destruct (backend_limit rq); reflexivity.
+Qed.
+
+(** when the implementation answers "offset beyond the result" the window of
+    the specification is empty as well, although the implementation's total
+    can be truncated *)
+Lemma impl_total_small rq k (per : list (list hit)) (s : list hit) :
+  backend_limit rq = Some k ->
+  (Z.of_nat (impl_total rq per) < rq_offset rq)%Z ->
+  length s = length (concat per) -> window rq s = [].
+Proof.
+  intros Hk Hlt Hlen. destruct (backend_limit_some rq k Hk) as [l [Hl [_ [Hpos Hkk]]]].
+  destruct (Z.le_gt_cases l 0) as [Hl0|Hl0]; [apply (window_nil_limit rq s l Hl Hl0)|].
+  apply window_nil_short. rewrite Hlen.
+  destruct (rq_format rq) eqn:Ef.
+  - unfold impl_total in Hlt. rewrite Hk in Hlt.
+    assert (map (fun h => backend_total rq (Some k) (length h)) per =
+            map (fun n => Nat.min n (S k)) (map (@length hit) per)) as E.
+    { rewrite map_map. apply map_ext. intros h. unfold backend_total. rewrite Ef. reflexivity. }
+    rewrite E in Hlt.
+    assert (fold_right Nat.add 0 (map (fun n => Nat.min n (S k)) (map (@length hit) per)) <= k)
+      as Hsmall by lia.
+    rewrite (sum_min_small k _ Hsmall) in Hlt. rewrite length_concat_sum. lia.
+  - rewrite <- (impl_total_full rq per (or_intror Ef)). lia.
+Qed.
+
+(** *** C06 *)
+
+(** hypothesis of the cut-off: lmd keeps every backend's rows in primary key
+    order and [default_sort_order] says the Sort headers are that order *)
+Definition backends_sorted schema cfg ds rq : Prop :=
+  forall bk, In bk (bks_of ds rq) ->
+             StronglySorted (lebP (hleb rq)) (hits_of schema cfg rq bk).
+
+Lemma per_of_wf schema cfg ds rq : Forall (Forall (hit_wf rq)) (per_of schema cfg ds rq).
+Proof.
+  unfold per_of. rewrite Forall_forall. intros l Hl. apply in_map_iff in Hl as [bk [<- _]].
+  apply hits_of_wf.
+Qed.
+
+Lemma per_of_sorted schema cfg ds rq :
+  backends_sorted schema cfg ds rq ->
+  Forall (StronglySorted (lebP (hleb rq))) (per_of schema cfg ds rq).
+Proof.
+  intros H. unfold per_of. rewrite Forall_forall. intros l Hl.
+  apply in_map_iff in Hl as [bk [<- Hbk]]. apply H, Hbk.
+Qed.
+
+Lemma data_result_wf schema cfg ds rq :
+  Forall (hit_wf rq) (fst (data_result schema cfg ds rq)).
+Proof.
+  pose proof (Forall_concat_all _ _ (per_of_wf schema cfg ds rq)) as Hall.
+  rewrite data_result_unfold. destruct (Z.ltb _ _); cbn [fst]; [constructor|].
+  rewrite Forall_forall in *. intros x Hx. apply Hall.
+  apply window_sublist in Hx. apply (Permutation_in _ (sort_hits_perm rq _)) in Hx.
+  apply cut_incl in Hx. exact Hx.
+Qed.
+
+Lemma data_result_spec_wf schema cfg ds rq :
+  Forall (hit_wf rq) (fst (data_result_spec schema cfg ds rq)).
+Proof.
+  pose proof (Forall_concat_all _ _ (per_of_wf schema cfg ds rq)) as Hall.
+  rewrite data_result_spec_unfold. cbn [fst].
+  rewrite Forall_forall in *. intros x Hx. apply Hall.
+  apply window_sublist in Hx. apply (Permutation_in _ (sort_hits_perm rq _)) in Hx. exact Hx.
+Qed.
+
+(** with the cut-off: same rows up to ties, position by position *)
+Theorem C06_window_default_order_eqv schema cfg ds rq k :
+  backend_limit rq = Some k ->
+  (0 <= rq_offset rq)%Z ->
+  backends_sorted schema cfg ds rq ->
+  eqv_list (hleb rq) (fst (data_result schema cfg ds rq))
+                     (fst (data_result_spec schema cfg ds rq)).
+Proof.
+  intros Hk Hoff Hs. rewrite data_result_unfold, data_result_spec_unfold.
+  destruct (Z.ltb_spec (Z.of_nat (impl_total rq (per_of schema cfg ds rq))) (rq_offset rq))
+    as [Hlt|Hge]; cbn [fst].
+  - rewrite (impl_total_small rq k (per_of schema cfg ds rq) _ Hk Hlt (sort_hits_length rq _)).
+    constructor.
+  - rewrite Hk. apply cut_window_eqv; [exact Hk|exact Hoff|apply per_of_wf|apply per_of_sorted, Hs].
+Qed.
+
+(** ... hence the same key sequence and the same number of rows *)
+Theorem C06_window_default_order schema cfg ds rq k :
+  backend_limit rq = Some k ->
+  (0 <= rq_offset rq)%Z ->
+  backends_sorted schema cfg ds rq ->
+  map h_keys (fst (data_result schema cfg ds rq)) =
+  map h_keys (fst (data_result_spec schema cfg ds rq)) /\
+  length (fst (data_result schema cfg ds rq)) = length (fst (data_result_spec schema cfg ds rq)).
+Proof.
+  intros Hk Hoff Hs.
+  pose proof (C06_window_default_order_eqv schema cfg ds rq k Hk Hoff Hs) as H.
+  split; [|apply (eqv_list_length _ _ _ H)].
+  apply (eqv_list_keys rq); [apply data_result_wf|apply data_result_spec_wf|exact H].
+Qed.
+
+(** without Sort header the rows themselves are equal *)
+Theorem C06_window_unsorted_exact schema cfg ds rq k :
+  backend_limit rq = Some k ->
+  (0 <= rq_offset rq)%Z ->
+  rq_sort rq = [] ->
+  fst (data_result schema cfg ds rq) = fst (data_result_spec schema cfg ds rq).
+Proof.
+  intros Hk Hoff E. rewrite data_result_unfold, data_result_spec_unfold.
+  destruct (Z.ltb_spec (Z.of_nat (impl_total rq (per_of schema cfg ds rq))) (rq_offset rq))
+    as [Hlt|Hge]; cbn [fst].
+  - rewrite (impl_total_small rq k (per_of schema cfg ds rq) _ Hk Hlt (sort_hits_length rq _)).
+    reflexivity.
+  - rewrite Hk. apply cut_window_unsorted_exact; assumption.
+Qed.
+
+(** no cut-off: the implementation is the specification *)
+Theorem C06_window_no_cut schema cfg ds rq :
+  backend_limit rq = None ->
+  fst (data_result schema cfg ds rq) = fst (data_result_spec schema cfg ds rq).
+Proof.
+  intros Hn. rewrite data_result_unfold, data_result_spec_unfold.
+  rewrite (impl_total_full rq _ (or_introl Hn)). rewrite Hn.
+  assert (map (cut None) (per_of schema cfg ds rq) = per_of schema cfg ds rq) as ->
+      by exact (map_id _).
+  destruct (Z.ltb_spec (Z.of_nat (length (concat (per_of schema cfg ds rq)))) (rq_offset rq))
+    as [Hlt|Hge]; cbn [fst]; [|reflexivity].
+  symmetry. apply window_nil_short. rewrite sort_hits_length. lia.
+Qed.
+
+(** total_count is the number of all matching rows *)
+Theorem C06_total schema cfg ds rq :
+  backend_limit rq = None \/ rq_format rq = FmtWrapped ->
+  snd (data_result schema cfg ds rq) = snd (data_result_spec schema cfg ds rq).
+Proof.
+  intros H. rewrite data_result_unfold, data_result_spec_unfold.
+  destruct (Z.ltb _ _); cbn [snd]; apply impl_total_full; exact H.
+Qed.
+
+(** in general the total never exceeds the number of matching rows *)
+Theorem C06_total_le schema cfg ds rq :
+  snd (data_result schema cfg ds rq) <= snd (data_result_spec schema cfg ds rq).
+Proof.
+  rewrite data_result_unfold, data_result_spec_unfold.
+  assert (impl_total rq (per_of schema cfg ds rq) <= length (concat (per_of schema cfg ds rq))) as H.
+  { unfold impl_total. rewrite length_concat_sum.
+    induction (per_of schema cfg ds rq) as [|h per IH]; cbn [map fold_right]; [lia|].
+    assert (backend_total rq (backend_limit rq) (length h) <= length h) as Hh.
+    { unfold backend_total. destruct (backend_limit rq); [|lia]. destruct (rq_format rq); lia. }
+    lia. }
+  destruct (Z.ltb _ _); cbn [snd]; exact H.
+Qed.
+
+(** the rows of the answer are sorted *)
+Theorem C06_result_sorted schema cfg ds rq :
+  rq_sort rq <> [] ->
+  StronglySorted (lebP (hleb rq)) (fst (data_result schema cfg ds rq)).
+Proof.
+  intros E. rewrite data_result_unfold. destruct (Z.ltb _ _); cbn [fst]; [constructor|].
+  apply window_sorted. rewrite (sort_hits_cons rq _ E).
+  apply isort_sorted_on with (pb := hit_wfb rq);
+    [apply hleb_total|apply hleb_trans_on|apply hit_wf_allp].
+  pose proof (Forall_concat_all _ _ (per_of_wf schema cfg ds rq)) as Hall.
+  rewrite Forall_forall in *. intros x Hx. apply Hall. apply cut_incl in Hx. exact Hx.
+Qed.
+
+(** the rows of the answer are matching rows of the selected backends *)
+Theorem C06_result_sublist schema cfg ds rq x :
+  In x (fst (data_result schema cfg ds rq)) -> In x (spec_hits schema cfg ds rq).
+Proof.
+  rewrite data_result_unfold. destruct (Z.ltb _ _); cbn [fst]; [intros []|]. intros Hx.
+  apply window_sublist in Hx. apply (Permutation_in _ (sort_hits_perm rq _)) in Hx.
+  apply cut_incl in Hx. exact Hx.
+Qed.
+
+Print Assumptions str_ltb_trans.
+Print Assumptions str_ltb_total.
+Print Assumptions keys_leb_refl.
+Print Assumptions keys_leb_total.
+Print Assumptions keys_leb_trans.
+Print Assumptions keys_leb_antisym.
+Print Assumptions isort_perm.
+Print Assumptions isort_sorted.
+Print Assumptions isort_stable_on_sorted.
+Print Assumptions isort_perm_eqv.
+Print Assumptions topk_cut.
+Print Assumptions topk_cut_incl.
+Print Assumptions topk_cut_keys.
+Print Assumptions topk_cut_on.
+Print Assumptions topk_cut_needs_sorted.
+Print Assumptions cut_needs_nonneg_offset.
+Print Assumptions isort_sorted_on.
+Print Assumptions window_length.
+Print Assumptions window_segment.
+Print Assumptions window_sublist.
+Print Assumptions window_NoDup.
+Print Assumptions cut_window_eqv.
+Print Assumptions cut_window_keys.
+Print Assumptions cut_window_unsorted_exact.
+Print Assumptions C06_window_default_order_eqv.
+Print Assumptions C06_window_default_order.
+Print Assumptions C06_window_unsorted_exact.
+Print Assumptions C06_window_no_cut.
+Print Assumptions C06_total.
+Print Assumptions C06_total_le.
+Print Assumptions C06_result_sorted.
+Print Assumptions C06_result_sublist.
